@@ -416,7 +416,11 @@ func (m *c17Monitor) judgeOptionRule(rule venRule, schemas ast.Schemas, before, 
 			return
 		}
 		ai := 0
-		for _, o := range b.Options {
+		skipUntil := -1
+		for oidx, o := range b.Options {
+			if oidx <= skipUntil {
+				continue
+			}
 			if !rule.selectsOption(b, o) {
 				if ai >= len(ab.Options) || canonOption(ab.Options[ai]) != canonOption(o) {
 					m.violation(rule, "frame/unselected-option-changed", fmt.Sprintf("option %s.%s.%s is not selected but is modified, reordered or gone", b.Package, b.Name, o.Name))
@@ -425,10 +429,13 @@ func (m *c17Monitor) judgeOptionRule(rule venRule, schemas ast.Schemas, before, 
 				ai++
 				continue
 			}
-			// how many options did the action produce? everything up to the next unselected option
+			// how many options did the action produce? everything up to the next unselected option.
+			// Runs of several adjacent selected options cannot be split unambiguously: not judged.
+			oi := indexOfOption(b.Options, o)
+			adjacent := (oi+1 < len(b.Options) && rule.selectsOption(b, b.Options[oi+1])) || (oi > 0 && rule.selectsOption(b, b.Options[oi-1]))
 			nextUnselected := ""
 			found := false
-			for _, o2 := range b.Options[indexOfOption(b.Options, o)+1:] {
+			for _, o2 := range b.Options[oi+1:] {
 				if !rule.selectsOption(b, o2) {
 					nextUnselected = canonOption(o2)
 					found = true
@@ -438,11 +445,17 @@ func (m *c17Monitor) judgeOptionRule(rule venRule, schemas ast.Schemas, before, 
 			start := ai
 			for ai < len(ab.Options) && !(found && canonOption(ab.Options[ai]) == nextUnselected) {
 				ai++
-				if !found && ai == len(ab.Options) {
-					break
-				}
 			}
 			produced := ab.Options[start:ai]
+			if adjacent {
+				m.r.Count("adjacent_selected_options(contract not judged)", 1)
+				// consume the whole run once
+				for oi+1 < len(b.Options) && rule.selectsOption(b, b.Options[oi+1]) {
+					oi++
+				}
+				skipUntil = oi
+				continue
+			}
 			m.optionContract(rule, schemas, b, o, produced)
 		}
 	}
